@@ -174,6 +174,43 @@ pub broadcast proof fn lemma_one_byte(s: Seq<u8>)
 }
 
 // ---- arithmetic lemmas
+// body-independent facts about the usual formulations of "round x up to a multiple of a" (so that equivalent rewrites of a padding step verify)
+pub proof fn lemma_pad_form_mod(x: int, a: int)
+    requires a > 0, x >= 0
+    ensures (a - x % a) % a == (if x % a > 0 { a - x % a } else { 0 })
+{
+    vstd::arithmetic::div_mod::lemma_mod_bound(x, a);
+    if x % a > 0 { vstd::arithmetic::div_mod::lemma_small_mod((a - x % a) as nat, a as nat); }
+    else { vstd::arithmetic::div_mod::lemma_mod_self_0(a); }
+}
+pub proof fn lemma_pad_form_roundup(x: int, a: int)
+    requires a > 0, x >= 0
+    ensures ((x + a - 1) / a) * a == (if x % a > 0 { x + (a - x % a) } else { x })
+{
+    vstd::arithmetic::div_mod::lemma_fundamental_div_mod(x, a);
+    vstd::arithmetic::div_mod::lemma_mod_bound(x, a);
+    let q = x / a; let r = x % a;
+    assert(x == a * q + r);
+    if r > 0 {
+        // x + a - 1 = a*(q+1) + (r-1)
+        assert(x + a - 1 == (q + 1) * a + (r - 1)) by (nonlinear_arith) requires x == a * q + r;
+        vstd::arithmetic::div_mod::lemma_fundamental_div_mod_converse(x + a - 1, a, q + 1, r - 1);
+        assert((q + 1) * a == x + (a - r)) by (nonlinear_arith) requires x == a * q + r;
+    } else {
+        assert(x + a - 1 == q * a + (a - 1)) by (nonlinear_arith) requires x == a * q + r, r == 0;
+        vstd::arithmetic::div_mod::lemma_fundamental_div_mod_converse(x + a - 1, a, q, a - 1);
+        assert(q * a == x) by (nonlinear_arith) requires x == a * q + r, r == 0;
+    }
+}
+pub proof fn lemma_pad_forms()
+    ensures
+        forall|x: int, a: int| a > 0 && x >= 0 ==> #[trigger] ((a - x % a) % a) == (if x % a > 0 { a - x % a } else { 0 }),
+        forall|x: int, a: int| a > 0 && x >= 0 ==> (#[trigger] ((x + a - 1) / a)) * a == (if x % a > 0 { x + (a - x % a) } else { x }),
+{
+    assert forall|x: int, a: int| a > 0 && x >= 0 implies #[trigger] ((a - x % a) % a) == (if x % a > 0 { a - x % a } else { 0 }) by { lemma_pad_form_mod(x, a); }
+    assert forall|x: int, a: int| a > 0 && x >= 0 implies (#[trigger] ((x + a - 1) / a)) * a == (if x % a > 0 { x + (a - x % a) } else { x }) by { lemma_pad_form_roundup(x, a); }
+}
+
 pub proof fn lemma_index_in_table(i: nat, sz: nat, len: nat)
     requires sz > 0
     ensures i < len / sz <==> i * sz + sz <= len
